@@ -82,13 +82,7 @@ theorem unpackListResponse_length (b : List Nat) (h : ListResponse) (hh : unpack
       rw [unpackMailboxHeader_length _ _ h1]
       exact rd16_take b _ (by decide)
 
-/-! ### Reply classes that reach a panic site -/
-
-/-- P3/P4 cannot fire on this message: length field at least 8 and the announced data present even after the
-    list-type word (2 bytes more than a continuation fragment needs: slightly conservative). -/
-def InfoLenOk (cfg : Cfg) (m : List Nat) : Prop :=
-  COE_HEADER_AND_LIST_TYPE_SIZE ≤ rd16 (image cfg.rmbx m) ∧
-    rd16 (image cfg.rmbx m) + 6 ≤ (image cfg.rmbx m).length
+/-! ### Invariants of an arbitrary device -/
 
 /-- An invariant of the device: a predicate on every message it queues and one on its internal state. -/
 structure DevInv (σ : Type) where
